@@ -32,6 +32,13 @@ for i, (nm, c) in enumerate([("detach_alias_slot", "borrowed:live pool slot"), (
     add(nm, "2.b'", "detach_class!(%s, %d);" % (nm, i), input_class=c, timeout=1500, mem_gb=12,
         shape={"returned value": c, "string": "2 symbolic ASCII bytes"})
 
+for n in (0, 1, 2):
+    add("detach_array_n%d" % n, "2.b'", "detach_array_step!(detach_array_n%d, %d);" % (n, n), input_class="array:%d elements" % n,
+        tier="quick" if n < 2 else "thorough", timeout=1500, mem_gb=12,
+        shape={"returned value": "array of %d element(s)" % n, "element kinds": "string view | number | bool | nested array | null",
+               "recursion": "one step: the recursive call is replaced by a marking stub"},
+        contract_stubs=["detach_return_value (recursive call) -> marking stub that records the element kind and returns Number(1000+i)"])
+
 # relocate_host_result (host value on the callee frame): finds the pre-repair defect in 12 s, but on the repaired code
 # the promote path re-reads the HostValue tag from frame memory and explores ProcessCommand::clone_into: out of memory at
 # 20 GB.  Not registered (a check that cannot finish on the unchanged tree is not kept); the harness stays in the file.
@@ -50,6 +57,7 @@ PROP = Property(
           ["runtime::Runtime::overwrite_slot", "runtime::Value::return_to_pool", "runtime::Value::promote"], "3 value classes"),
     ],
     harnesses=hs,
+    duplicates=[(RR, "src/runtime.rs", "detach_return_value", "verif_outer_detach_return_value", "impl<'a> Runtime<'a>")],
     assumptions=[
         "unit-contract level: the reclamation points are decided for every string VALUE and ALIASING a caller can hand them (provenance classes), not for whole programs; the whole-program differential (frame arena on/off) needs the evaluator and is outside the claim (DESIGN.md 4)",
         "strings of 2 symbolic bytes; pools concretised (PoolSet::verif_tiny: two slots in the two smallest classes, all other classes exhausted); persistent arena 960-byte model, frame arena 512-byte model; arrays and host handles are outside the value domain",
